@@ -60,3 +60,19 @@ def install(ns, pid, part_names, manifest):
                     out["extra"]["%s.%s" % (name, k)] = r[k]
         return out
     ns["tie"] = tie
+
+    def replay(ctx, hdr, body):
+        """A part may define replay(ctx, hdr, body) -> (ok, text) or None (= not my script)."""
+        for p in parts:
+            if hasattr(p, "replay"):
+                r = p.replay(ctx, hdr, body)
+                if r is not None:
+                    return r
+        import re, runner
+        script = [l for l in body if not re.match(r"^[A-Za-z_()0-9 ]{1,20}: ", l)]
+        hout, _ = runner.run_harness_script(script, stateless=False)
+        mout = runner.run_model_script(script)
+        ok = all(h == m for h, m in zip(hout, mout))
+        return ok, "\n".join("%s\n   impl:  %s\n   model: %s%s" % (l[:300], h[:300], m[:300], "" if h == m else "   <-- differ")
+                             for l, h, m in zip(script, hout, mout))
+    ns["replay"] = replay
